@@ -95,9 +95,10 @@ func factsApi() {
 	if f6 == nil || f7 == nil {
 		unrec("update_checks_merged_metadata", "bool", "updateValue / batchUpdateValue not found")
 	} else {
-		i1, i2 := strings.Index(uv, "if err := metadata.Validate(); err != nil { this.notificator.Notify(notificationId, err, false) return nil }"), strings.Index(uv, "this.index.Remove(id)")
-		j1, j2 := strings.Index(bu, "if err := index.Metadata(metadata).Validate(); err != nil { errors[id] = err continue }"), strings.Index(bu, "this.index.Remove(id)")
-		known("update_checks_merged_metadata", "bool", b(i1 >= 0 && i2 > i1 && j1 >= 0 && j2 > j1), "updates refuse merged metadata beyond the encoding before they remove the old item")
+		mergeLoop := "for k, v := range vertex.Metadata() { if _, exists := metadata[k]; !exists { metadata[k] = v } }"
+		i0, i1, i2 := strings.Index(uv, mergeLoop), strings.Index(uv, "if err := metadata.Validate(); err != nil { this.notificator.Notify(notificationId, err, false) return nil }"), strings.Index(uv, "this.index.Remove(id)")
+		j0, j1, j2 := strings.Index(bu, mergeLoop), strings.Index(bu, "if err := index.Metadata(metadata).Validate(); err != nil { errors[id] = err continue }"), strings.Index(bu, "this.index.Remove(id)")
+		known("update_checks_merged_metadata", "bool", b(i0 >= 0 && i1 > i0 && i2 > i1 && j0 >= 0 && j1 > j0 && j2 > j1), "updates merge, then refuse merged metadata beyond the encoding, then remove the old item")
 	}
 	// ---- searches
 	se, f8 := bodyText("storage/dataset.go", "Dataset", "Search")
